@@ -230,7 +230,13 @@ def judgeConveyor (cfg : Cfg) (j : Book) (o : Obs) : Except String Book :=
       let j' := { j with offered := id :: j.offered }
       match o.res with
       | .start => .ok { j' with accepted := j.accepted + 1 }
+      -- handed over in the very instant of the offer (no transport process): service started and ended at once
+      | .pass =>
+        if isFull then .error (S "in-service-exceeds-limit")
+        else .ok { j' with accepted := j.accepted + 1, finished := j.finished ++ [id], completed := j.completed + 1 }
       | .rej => if !isFull then .error (S "rejected-with-room") else .ok { j' with refused := id :: j.refused }
+      -- neither carried, nor handed over, nor counted as rejected
+      | .none_ => .error (S "accepted-item-discarded")
       | _ => .error (S "malformed-observation")
   | .fin id =>
     if !j.svc.ids.contains id then .error (S "completed-not-in-service")
@@ -405,7 +411,13 @@ def judgeCounters (cfg : Cfg) (j : Book) (o : Obs) : Option String :=
     mismatch .pooled ["available", "active", "queued", "completed", "rejected"]
       [cfg.limit - n, n, j.waiting.length, j.completed, j.refused.length] o.ctr
   | .conveyor =>
-    mismatch .conveyor ["items_in_transit", "items_transported", "items_rejected"]
+    -- "exactly one of": what the belt reports as in transit, transported and rejected adds up to what was offered
+    match o.ctr with
+    | [it, tr, rj] =>
+      if it + tr + rj != j.offered.length then some (sig .conveyor "conservation" ++ s!" in_transit {it} + transported {tr} + rejected {rj} != offered {j.offered.length}")
+      else mismatch .conveyor ["items_in_transit", "items_transported", "items_rejected"]
+        [n, j.completed, j.refused.length] o.ctr
+    | _ => mismatch .conveyor ["items_in_transit", "items_transported", "items_rejected"]
       [n, j.completed, j.refused.length] o.ctr
   | .gate =>
     -- a gate that reports queued items while it is open strands them
